@@ -132,6 +132,11 @@ func Init() {
 			}
 			return s.yield()
 		}
+		verifyield.YieldHook = func() {
+			if s := active.Load(); s != nil {
+				s.yieldPct(s.switchPct)
+			}
+		}
 		verifyield.GoHook = func(f func()) bool {
 			s := active.Load()
 			if s == nil {
@@ -165,7 +170,7 @@ func monitor() {
 		} else {
 			last, lastP, same = s, p, 0
 		}
-		if same >= 10 {
+		if same >= 30 {
 			same = 0
 			s.escape()
 		}
@@ -538,7 +543,11 @@ func Yield() bool {
 
 // yield moves the token to a parked task, if there is one, with the
 // probability of a preemption.
-func (s *Sched) yield() bool {
+func (s *Sched) yield() bool { return s.yieldPct(50 + s.switchPct/2) }
+
+// yieldPct is a scheduling point at which the token moves with probability
+// pct percent.
+func (s *Sched) yieldPct(pct int) bool {
 	gid := goid()
 	s.mu.Lock()
 	t := s.byG[gid]
@@ -552,7 +561,7 @@ func (s *Sched) yield() bool {
 	s.res.Steps++
 	s.progress.Add(1)
 	s.streak = 0
-	if s.rng.IntN(100) < 50+s.switchPct/2 {
+	if pct > 0 && s.rng.IntN(100) < pct {
 		if p := s.parked(t); len(p) > 0 {
 			s.grant(p[s.rng.IntN(len(p))])
 			s.park(t)
@@ -633,7 +642,7 @@ func (s *Sched) deadlock() {
 }
 
 // escape is called by the monitor when no scheduling decision has been made
-// for a second of real time: the token holder is stuck outside the seam
+// for three seconds of real time: the token holder is stuck outside the seam
 // (in a lock of a library that a parked task holds, say).  Another task is
 // released so that the run can go on, at the price of exact repeatability.
 func (s *Sched) escape() {
